@@ -66,10 +66,23 @@ func (a *index) Policies(requested sets.Set[model.ConfigKey]) []model.WorkloadAu
 	return res
 }
 
+// peerAuthnOlder reports whether a takes precedence over b: the older policy wins. Policies created in the same
+// second are ordered by name and namespace, like sortConfigByCreationTime does for sidecars, so that the choice
+// does not depend on the order in which the policies are returned by krt.
+func peerAuthnOlder(a, b *securityclient.PeerAuthentication) bool {
+	if !a.CreationTimestamp.Equal(&b.CreationTimestamp) {
+		return a.CreationTimestamp.Before(&b.CreationTimestamp)
+	}
+	if a.Name != b.Name {
+		return a.Name < b.Name
+	}
+	return a.Namespace < b.Namespace
+}
+
 func getOldestPeerAuthn(policies []*securityclient.PeerAuthentication) *securityclient.PeerAuthentication {
 	var oldest *securityclient.PeerAuthentication
 	for _, pol := range policies {
-		if oldest == nil || pol.CreationTimestamp.Before(&oldest.CreationTimestamp) {
+		if oldest == nil || peerAuthnOlder(pol, oldest) {
 			oldest = pol
 		}
 	}
@@ -85,18 +98,18 @@ func convertedSelectorPeerAuthentications(rootNamespace string, configs []*secur
 		if spec.Selector == nil || len(spec.Selector.MatchLabels) == 0 {
 			// Namespace-level or mesh-level policy
 			if cfg.Namespace == rootNamespace {
-				if meshCfg == nil || cfg.CreationTimestamp.Before(&meshCfg.CreationTimestamp) {
+				if meshCfg == nil || peerAuthnOlder(cfg, meshCfg) {
 					log.Debugf("Switch selected mesh policy to %s.%s (%v)", cfg.Name, cfg.Namespace, cfg.CreationTimestamp)
 					meshCfg = cfg
 				}
 			} else {
-				if namespaceCfg == nil || cfg.CreationTimestamp.Before(&namespaceCfg.CreationTimestamp) {
+				if namespaceCfg == nil || peerAuthnOlder(cfg, namespaceCfg) {
 					log.Debugf("Switch selected namespace policy to %s.%s (%v)", cfg.Name, cfg.Namespace, cfg.CreationTimestamp)
 					namespaceCfg = cfg
 				}
 			}
 		} else if cfg.Namespace != rootNamespace {
-			if workloadCfg == nil || cfg.CreationTimestamp.Before(&workloadCfg.CreationTimestamp) {
+			if workloadCfg == nil || peerAuthnOlder(cfg, workloadCfg) {
 				log.Debugf("Switch selected workload policy to %s.%s (%v)", cfg.Name, cfg.Namespace, cfg.CreationTimestamp)
 				workloadCfg = cfg
 			}
